@@ -1199,7 +1199,10 @@ footnote * footnote_new(const char * source, token * label, token * content, boo
 						}
 					}
 
+					// The content stays part of its original chain as well
+					walker = content->prev;
 					f->content = token_new_parent(content, BLOCK_PARA);
+					content->prev = walker;
 					f->free_para = true;
 					break;
 			}
